@@ -78,8 +78,8 @@ impl Mode {
     }
 }
 
-/// All oracle checks on one returned alignment. `prefix` = "C01" or "C02/<entry>".
-/// Returns whether the alignment was fine.
+/// All oracle checks on one returned alignment.  Ok(()) when fine, otherwise (symptom, detail);
+/// the caller turns the symptom into a finding key.
 pub fn check_alignment(
     al: &Alignment,
     x: &[u8],
@@ -89,9 +89,40 @@ pub fn check_alignment(
     opt: i64,
     must_be_optimal: bool,
     tolerate_zero_len_clips: bool,
-    prefix: &str,
     cc: &mut CaseCtx,
-) -> bool {
+) -> Result<(), (String, String)> {
+    let (nontrivial, r) = check_alignment_core(al, x, y, scheme, mode, opt, must_be_optimal, tolerate_zero_len_clips);
+    cc.set_nontrivial(nontrivial);
+    cc.outcome(&(al.score, &al.operations, al.xstart, al.ystart));
+    r
+}
+
+/// the same checks without a CaseCtx (used inside forked children)
+pub fn check_alignment_pure(
+    al: &Alignment,
+    x: &[u8],
+    y: &[u8],
+    scheme: &Scheme,
+    mode: Mode,
+    opt: i64,
+    must_be_optimal: bool,
+    tolerate_zero_len_clips: bool,
+) -> Result<(), (String, String)> {
+    check_alignment_core(al, x, y, scheme, mode, opt, must_be_optimal, tolerate_zero_len_clips).1
+}
+
+fn check_alignment_core(
+    al: &Alignment,
+    x: &[u8],
+    y: &[u8],
+    scheme: &Scheme,
+    mode: Mode,
+    opt: i64,
+    must_be_optimal: bool,
+    tolerate_zero_len_clips: bool,
+) -> (bool, Result<(), (String, String)>) {
+    let mut nontrivial = false;
+    let r = (|| -> Result<(), (String, String)> {
     let eff = match mode.clips() {
         Some(c) => scheme.with_clips(c),
         None => *scheme,
@@ -102,66 +133,47 @@ pub fn check_alignment(
     } else {
         ClipOps::Filtered
     };
-    let name = mode.name();
     if al.mode != mode.expected_mode() {
-        cc.violation(
-            format!("{}/{}/mode-field", prefix, name),
-            format!("mode field is {:?}", al.mode),
-        );
-        return false;
+        return Err(("mode-field".into(), format!("mode field is {:?}", al.mode)));
     }
     let pc = match validate(al, x, y, &eff, clip_ops, tolerate_zero_len_clips) {
         Ok(pc) => pc,
-        Err(e) => {
-            cc.violation(
-                format!("{}/{}/invalid-path", prefix, name),
-                format!("{} :: {}", e, ops_string(al)),
-            );
-            return false;
-        }
+        Err(e) => return Err(("invalid-path".into(), format!("{} :: {}", e, ops_string(al)))),
     };
-    cc.set_nontrivial(!x.is_empty() && !y.is_empty() && (pc.has_gap || pc.has_clip));
-    cc.outcome(&(al.score, &al.operations, al.xstart, al.ystart));
+    nontrivial = !x.is_empty() && !y.is_empty() && (pc.has_gap || pc.has_clip);
     let (m, n) = (x.len(), y.len());
     match mode {
         Mode::Global => {
             if al.xstart != 0 || al.ystart != 0 || al.xend != m || al.yend != n || pc.has_clip {
-                cc.violation(
-                    format!("{}/global/not-end-to-end", prefix),
-                    ops_string(al),
-                );
-                return false;
+                return Err(("not-end-to-end".into(), ops_string(al)));
             }
         }
         Mode::Semiglobal => {
             if al.xstart != 0 || al.xend != m {
-                cc.violation(
-                    format!("{}/semiglobal/x-not-fully-aligned", prefix),
-                    ops_string(al),
-                );
-                return false;
+                return Err(("x-not-fully-aligned".into(), ops_string(al)));
             }
         }
         Mode::Local => {
             if al.score < 0 {
-                cc.violation(format!("{}/local/negative-score", prefix), ops_string(al));
-                return false;
+                return Err(("negative-score".into(), ops_string(al)));
             }
         }
         Mode::Custom => {}
     }
     if pc.strict != al.score as i64 {
-        // classify the one known shape precisely: a gap run that continues across a clip
-        // operation and was charged one surplus gap_open
-        let sub = if pc.ins_run_split_by_clip && pc.strict - al.score as i64 == -(eff.gap_open as i64) {
-            "ins-run-split-at-clip/score-below-path"
-        } else if pc.del_run_split_by_clip && pc.strict - al.score as i64 == -(eff.gap_open as i64) {
-            "del-run-split-at-clip/score-below-path"
+        // classify one shape precisely: a gap run that continues across a suffix clip and was
+        // charged exactly one surplus gap_open
+        let one_open = pc.strict - al.score as i64 == -(eff.gap_open as i64) && eff.gap_open < 0;
+        let filtered = clip_ops == ClipOps::Filtered;
+        let sub = if one_open && (pc.ins_run_split_by_clip || (filtered && pc.ins_run_at_clipped_yend)) {
+            "ins-run-split-at-yclip/score-below-path"
+        } else if one_open && (pc.del_run_split_by_clip || (filtered && pc.del_run_at_clipped_xend)) {
+            "del-run-split-at-xclip/score-below-path"
         } else {
             "score-differs-from-path"
         };
-        cc.violation(
-            format!("{}/{}/{}", prefix, name, sub),
+        return Err((
+            sub.into(),
             format!(
                 "reported {} but the returned path scores {} (optimum {}) :: {}",
                 al.score,
@@ -169,24 +181,36 @@ pub fn check_alignment(
                 opt,
                 ops_string(al)
             ),
-        );
-        return false;
+        ));
     }
     if al.score as i64 > opt {
-        cc.violation(
-            format!("{}/{}/above-optimum", prefix, name),
-            format!("reported {} optimum {} :: {}", al.score, opt, ops_string(al)),
-        );
-        return false;
+        return Err(("above-optimum".into(), format!("reported {} optimum {} :: {}", al.score, opt, ops_string(al))));
     }
     if must_be_optimal && (al.score as i64) < opt {
-        cc.violation(
-            format!("{}/{}/suboptimal", prefix, name),
-            format!("reported {} optimum {} :: {}", al.score, opt, ops_string(al)),
-        );
-        return false;
+        return Err(("suboptimal".into(), format!("reported {} optimum {} :: {}", al.score, opt, ops_string(al))));
     }
-    true
+    Ok(())
+    })();
+    (nontrivial, r)
+}
+
+/// C01 wrapper: report under `C01/<mode>/<symptom>`; returns whether the alignment was fine
+fn check_c01(
+    al: &Alignment,
+    x: &[u8],
+    y: &[u8],
+    scheme: &Scheme,
+    mode: Mode,
+    opt: i64,
+    cc: &mut CaseCtx,
+) -> bool {
+    match check_alignment(al, x, y, scheme, mode, opt, true, false, cc) {
+        Ok(()) => true,
+        Err((symptom, detail)) => {
+            cc.violation(format!("C01/{}/{}", mode.name(), symptom), detail);
+            false
+        }
+    }
 }
 
 pub fn call_mode<F: bio::alignment::pairwise::MatchFunc>(
@@ -324,7 +348,7 @@ fn sweep(cfg: &SweepCfg, cfg_idx: usize, ctx: &mut Ctx, only: Option<(usize, usi
                                 rebuilt = Some(new_aligner(&scheme, ci, cfg_idx));
                             }
                             Ok(al) => {
-                                let ok = check_alignment(&al, x, y, &scheme, Mode::Custom, opt, true, false, "C01", cc);
+                                let ok = check_c01(&al, x, y, &scheme, Mode::Custom, opt, cc);
                                 let fresh = guard(|| Aligner::with_scoring(scoring_of(&scheme)).custom(x, y));
                                 if fresh.as_ref().ok() != Some(&al) {
                                     if ok {
@@ -356,7 +380,7 @@ fn sweep(cfg: &SweepCfg, cfg_idx: usize, ctx: &mut Ctx, only: Option<(usize, usi
                                     rebuilt = Some(new_aligner(&scheme, ci, cfg_idx));
                                 }
                                 Ok(al) => {
-                                    check_alignment(&al, x, y, &scheme, mode, mopt, true, false, "C01", cc);
+                                    check_c01(&al, x, y, &scheme, mode, mopt, cc);
                                 }
                             },
                         );
@@ -399,7 +423,7 @@ fn single_call(scheme: &Scheme, mode: Mode, x: &[u8], y: &[u8], cc: &mut CaseCtx
     match guard(|| call_mode(&mut Aligner::with_scoring(scoring_of(scheme)), mode, x, y)) {
         Err(msg) => cc.violation(format!("C01/{}/panic", mode.name()), msg),
         Ok(al) => {
-            check_alignment(&al, x, y, scheme, mode, opt, true, false, "C01", cc);
+            check_c01(&al, x, y, scheme, mode, opt, cc);
         }
     }
 }
@@ -504,7 +528,7 @@ fn history_step(
             }
             let eff = call.mode.clips().unwrap_or(scheme.clips());
             let opt = RangeTable::new(&x, &y, &scheme.subst, scheme.gap_open, scheme.gap_extend).optimum(eff);
-            if !check_alignment(g, &x, &y, &scheme, call.mode, opt, true, false, "C01", cc) {
+            if !check_c01(g, &x, &y, &scheme, call.mode, opt, cc) {
                 return None;
             }
             Some(a)
